@@ -5,9 +5,42 @@ PRELUDE = ["00_prelude.vrs"]
 STACK = ["10_stack.vrs"]
 MAIN = ["99_main.vrs"]
 
+STD = ["05_std.vrs"]
+PUSH_L1 = ["20_plumbing.vrs", "30_state.vrs", "40_common.vrs", "45_sem.vrs", "48_print.vrs"]
+PUSH_L2 = ["50_int.vrs", "52_bool.vrs"]
+PUSH = PRELUDE + STD + STACK + PUSH_L1 + PUSH_L2 + MAIN
+
+PUSH_ASSUME = [
+    "Vec<T> / Option / Result behave as vstd specifies",
+    "write!/writeln! on the in-memory Cursor<Vec<u8>> append exactly the Display bytes and never fail (vx_write_display / vx_writeln_display stand-ins)",
+    "derived Clone of PushProgram returns a structurally equal value",
+    "float <-> int `as` casts are the saturating conversions of the Rust reference (vx_f64_as_i64 stand-in)",
+    "std contracts listed in coverage.trusted_base (Result::and_then/or_else/cloned/unwrap_or, i64::saturating_neg/abs/checked_pow, From<T> for T, i64: From<bool>)",
+]
+
 PROPS = {
+    "C01": {
+        "templates": PUSH, "expand": True, "extern": True, "steps": [run_verus_property], "level": "proof",
+        "explanation": "post of every instruction = total spec function on the abstract state (SV), written from the property text; Verus proves the "
+                       "real perform() bodies (extracted from /repo on this run) against it for all values, depths and capacities; per-variant "
+                       "obligation split localises a failing instruction.",
+        "assumptions": PUSH_ASSUME,
+    },
+    "C02": {
+        "templates": PUSH, "expand": True, "extern": True, "steps": [run_verus_property], "level": "proof",
+        "explanation": "the failure clause of every L1/L2 contract: on Err the carried state is view-identical to the input state (all stacks, "
+                       "capacities, output, inputs, step limit), Recoverable vs Fatal as prescribed; TryRecover maps Recoverable to the carried state.",
+        "assumptions": PUSH_ASSUME,
+    },
+    "C03": {
+        "templates": PUSH, "expand": True, "extern": True, "steps": [run_verus_property], "level": "proof",
+        "explanation": "wf (every stack within its maximum) is preserved by every instruction outcome, fatal errors are only StackError::Overflow, "
+                       "and Verus' own obligations (no arithmetic overflow, no out-of-bounds index, unreachable!() proved unreachable, termination "
+                       "of every loop) hold on the extracted bodies.",
+        "assumptions": PUSH_ASSUME,
+    },
     "C04": {
-        "templates": PRELUDE + STACK + MAIN,
+        "templates": PRELUDE + STD + STACK + MAIN, "extern": True,
         "steps": [run_verus_property],
         "level": "proof",
         "explanation": "Total functional contracts on the real bodies of Stack<T>::{set_max_stack_size,max_stack_size,size,is_empty,"
